@@ -105,6 +105,9 @@ CANDS = sorted(list(METHODS) + list(FUNCTIONS))
 def cases(draw, tier):
     key, cand = draw(st.sampled_from(CANDS))
     spec = draw(nets.net_spec(cls=key, max_edges=5, min_edges=1, allow_empty=False, with_attrs=True))
+    if key != "SC" and spec["edges"] and draw(st.booleans()):  # a repeated edge (merging needs one)
+        e = spec["edges"][0]
+        spec["edges"].append([None] + [list(x) if isinstance(x, list) else x for x in e[1:-1]] + [{}])
     idx = st.one_of(st.none(), st.lists(st.integers(0, 9), max_size=6))
     # arguments of subhypergraph: the whole network (defaults) or drawn selections (by position; may be empty, may select nothing that survives)
     sub = draw(st.one_of(st.none(), st.fixed_dictionaries({"nodes": idx, "edges": idx, "keep_isolates": st.booleans()})))
